@@ -1,9 +1,9 @@
 package main
 
 import (
-	"go/token"
 	"fmt"
 	"go/constant"
+	"go/token"
 	"go/types"
 	"sort"
 	"strings"
@@ -131,7 +131,6 @@ func runC01(c *Ctx) {
 
 	runC01Rest(c, isTA)
 }
-
 
 // hasFact is a convenience over FactSet.find.
 func hasFact(fs FactSet, pred func(Fact) bool) (string, bool) {
